@@ -180,3 +180,33 @@ Proof.
   apply (require_fuel_bound_lemma [0; 1; 2; 4; 5; 6]); [exact guarded_ex|exact loadable_ex|].
   vm_compute. lia.
 Qed.
+
+(* ---- initialisation order: modules registered before OpenPackage survive it ---- *)
+Definition init_ops : list iop :=
+  [IRegister 3 [1]; IOpenLib LSTRING; IOpenBase; IOpenPackage; IOpenLib LTABLE; IRegister 3 [2];
+   IPreload 0 (mkLoader KGo [Return (ETab 0)])].
+
+Example init_order_ex :
+  let s := fst (fst (irun (init, false) init_ops)) in
+  snd (fst (irun (init, false) init_ops)) = true /\
+  is_table (loaded (fst (register init 3 [1])) 3) = true /\
+  snd (require 1 s 3) = Ok (VTab 0 0) /\ globals s 3 = VTab 0 0 /\
+  snd (require 1 s LSTRING) = Ok (VTab 1 0) /\ snd (require 1 s PKG) = Ok (VTab 2 0) /\
+  snd (require 1 s LTABLE) = Ok (VTab 3 0) /\ snd (require 2 s 0) = Ok (VTab 4 0) /\
+  snd (istep (init, false) (IPreload 0 (mkLoader KGo []))) = ORes (Err ENoPackage) [].
+Proof. repeat split. Qed.
+
+Definition init_case : case :=
+  CInit [IRegister 3 [1]; IOpenBase; IOpenPackage] [HRequire 3; HGetGlobal 3; HRequire PKG]
+        [OReg (Ok (VTab 0 0)) [1]; ONone; OReg (Ok (VTab 1 0)) [];
+         ORes (Ok (VTab 0 0)) []; OVal (VTab 0 0); ORes (Ok (VTab 1 0)) []].
+(* what the seeded regression (fresh _LOADED in OpenPackage) shows instead *)
+Definition init_case_lost : case :=
+  CInit [IRegister 3 [1]; IOpenBase; IOpenPackage] [HRequire 3; HGetGlobal 3; HRequire PKG]
+        [OReg (Ok (VTab 0 0)) [1]; ONone; OReg (Ok (VTab 1 0)) [];
+         ORes (Err (ENotFound 3 [TPre 3; TPath 0 3; TPath 1 3])) []; OVal (VTab 0 0); ORes (Ok (VTab 1 0)) []].
+
+Example init_evaluator_ex :
+  check_impl init_case = true /\ check_spec init_case = true /\
+  check_impl init_case_lost = false /\ check_spec init_case_lost = false.
+Proof. repeat split; vm_compute; reflexivity. Qed.
